@@ -262,6 +262,40 @@ def gen_C18(tier, seed, unit, nunits):
             out.append(f'wprog {s} {n} {f} {x} ' + ' '.join(steps))
     return {'wrap': out}
 
+def le_hex(n, x):
+    x &= (1 << n) - 1
+    return x.to_bytes(n // 8, 'little').hex()
+
+def gen_C10(tier, seed, unit, nunits):
+    out = G.corpus('C10') if unit == 0 else []
+    for (s, n, f) in unit_layouts(G.typed_layouts(tier), unit, nunits):
+        rng = random.Random(f'{seed}/C10/{s}/{n}/{f}')
+        lo, hi = G.rng_range(s, n)
+        E = G.edges(s, n, f)
+        vals = list(range(lo, hi + 1)) if n == 8 else E + [G.rand_val(rng, s, n, f, E) for _ in range(scale(tier, 150, 5000))]
+        out.append(req('max_encoded_len', s, n, f))
+        nb = n // 8
+        for a in vals:
+            for op in ('encode', 'int_encode', 'encoded_size', 'to_le_bytes', 'to_be_bytes', 'to_ne_bytes', 'bits_roundtrip', 'wrapping_bits'):
+                out.append(req(op, s, n, f, a))
+            h = le_hex(n, a)
+            out.append(req('decode', s, n, f, h))
+            out.append(req('from_le_bytes', s, n, f, h))
+            out.append(req('from_ne_bytes', s, n, f, h))
+            out.append(req('from_be_bytes', s, n, f, bytes.fromhex(h)[::-1].hex()))
+            # short and long inputs
+            k = rng.randrange(nb)
+            out.append(req('decode', s, n, f, h[:2 * k] if k else '-'))
+            extra = bytes(rng.getrandbits(8) for _ in range(rng.randint(1, 24))).hex()
+            out.append(req('decode', s, n, f, h + extra))
+        for _ in range(scale(tier, 100, 3000)):
+            ln = rng.choice([0, 1, nb - 1, nb, nb + 1, 2 * nb, rng.randint(0, 40)])
+            b = bytes(rng.getrandbits(8) for _ in range(ln)).hex() or '-'
+            out.append(req('decode', s, n, f, b))
+            if ln == nb:
+                out.append(req('from_le_bytes', s, n, f, b)); out.append(req('from_be_bytes', s, n, f, b))
+    return {'codec': out}
+
 PROPS = {
     'C01': dict(lean_modules=['SfxProps.C01'], bins=['arith'], profiles=['chk', 'rel'], gen=gen_C01, thorough_all_fracs=True),
     'C06': dict(lean_modules=['SfxProps.C06'], bins=['arith'], profiles=['chk', 'rel'], gen=gen_C06, thorough_all_fracs=True),
@@ -269,5 +303,9 @@ PROPS = {
     'C18': dict(lean_modules=['SfxProps.C18'], bins=['wrap'], profiles=['chk', 'rel'], gen=gen_C18, thorough_all_fracs=True,
                 rule='programs of 1..12 Wrapping operations (every impl variant is a distinct step kind); de-duplicated per unit; '
                      'non-trivial = some operand magnitude > 1; evaluations counts program x profile executions'),
+    'C10': dict(lean_modules=['SfxProps.C10'], bins=['codec'], profiles=['rel'], gen=gen_C10, thorough_all_fracs=True,
+                rule='bit patterns (8-bit exhaustive), their encodings, short/long/random byte strings; de-duplicated per unit; '
+                     'non-trivial = operand magnitude > 1 or a byte-string argument',
+                assumptions=['serde form {bits}: not exercised (no serde_json in the offline registry); little-endian target for *_ne_bytes']),
     'C02': dict(lean_modules=['SfxProps.C02'], bins=['arith'], profiles=['chk', 'rel'], gen=gen_C02, thorough_all_fracs=True),
 }
